@@ -1349,7 +1349,12 @@ def partial_reduce(
     combine_sizes = combine_sizes or {}
     combine_sizes = {k: combine_sizes.get(k, 1) for k in axis}
     chunks = tuple(
-        (combine_sizes[i],) * math.ceil(len(c) / split_every[i])
+        (
+            # the sizes may be given explicitly (one per output block)
+            tuple(combine_sizes[i])
+            if isinstance(combine_sizes[i], tuple)
+            else (combine_sizes[i],) * math.ceil(len(c) / split_every[i])
+        )
         if i in split_every
         else c
         for (i, c) in enumerate(x.chunks)
@@ -1696,13 +1701,17 @@ def scan(
         return a
 
     split_size = min(split_every, array.numblocks[axis])
+    # each block of reduced holds one value per block of array in its group,
+    # so the last block is smaller if the groups don't divide the number of blocks
+    num_full, num_rest = divmod(array.numblocks[axis], split_size)
+    reduced_sizes = (split_size,) * num_full + ((num_rest,) if num_rest else ())
     reduced = partial_reduce(
         array,
         initial_func=partial(preop, axis=axis, keepdims=True),
         func=identity_func,
         split_every={axis: split_size},
         dtype=dtype,
-        combine_sizes={axis: split_size},
+        combine_sizes={axis: reduced_sizes},
     )
 
     # 3. Now scan `reduced` to generate the increments for each block of `scanned`.
